@@ -32,7 +32,7 @@ MC_CFGS = {
     "thorough": (("rt_mc1.cfg", False), ("rt_mc_x.cfg", False), ("rt_mc_t.cfg", False), ("rt_coded.cfg", True)),
 }
 UNITS = ["setUp", "body", "tearDown", "c1", "c2", "c3"]
-BASES = ["traceback", "Failed expectation", "foo", "fxd", "diff", "reason", "hx"]
+BASES = ["traceback", "Failed expectation", "foo", "fxd", "diff", "reason", "hx", "empty"]
 
 
 def normalise_prog(p):
@@ -60,6 +60,8 @@ def parse_details(snap, env):
         b, n = split_name(nm)
         text = data.decode("utf8", "replace")
         cids = []
+        if b == "empty" and data == b"":
+            cids.append("user:empty-%d" % n)
         epoch = 0
         for m in re.finditer(r"MARK-([A-Za-z0-9_:]+)-(\d+)", text):
             c = "tb:%s:%s" % (m.group(1), m.group(2))
@@ -132,6 +134,14 @@ def observe(prog, flavours):
     o2, res2 = synth._run(case, env, "ext")
     obs["run2"] = {"ran": list(env.ran), "seen": list(env.seen), "names": o2["names"], "outcome": o2["outcome"], "prop": o2["prop"]}
     obs["anomalies"] += len(env.anomalies)
+    # ... and a third one: state that only accumulates shows from the third run on
+    env.reset()
+    o3, res3 = synth._run(case, env, "ext")
+    run3 = {"ran": list(env.ran), "seen": list(env.seen), "names": o3["names"], "outcome": o3["outcome"], "prop": o3["prop"]}
+    obs["anomalies"] += len(env.anomalies)
+    if run3 != obs["run2"]:
+        # reported through the same clause: make run2 carry the divergent third run
+        obs["run2"] = run3
     return {"prog": prog, "obs": obs}
 
 
